@@ -351,7 +351,13 @@ PRINCIPALS = ["*", "arn:aws:iam::123456789012:root", {"AWS": "arn:aws:iam::12345
 CONDITIONS = [{"StringEquals": {"aws:PrincipalOrgID": "o-123"}}, {"Bool": {"aws:SecureTransport": "true"}},
               {"IpAddress": {"aws:SourceIp": "192.0.2.7/32"}}, {"StringLike": {"s3:prefix": ["home/*", "x?"]}},
               {"ArnLike": {"aws:SourceArn": "arn:aws:s3:::b*"}, "StringEquals": {"aws:SourceAccount": "123456789012"}},
-              {"Null": {"aws:TokenIssueTime": "false"}}, {"NumericLessThan": {"s3:max-keys": "10"}}]
+              {"Null": {"aws:TokenIssueTime": "false"}}, {"NumericLessThan": {"s3:max-keys": "10"}},
+              # every typed atom a condition block can hold travels through model_dump() -> the walk -> re-validation
+              # (bytes, datetimes, IPv6 networks, integers; seeded change C10-r4m2 rebuilt bytes as a list of ints)
+              {"BinaryEquals": {"kms:EncryptionContext:k": "QmluYXJ5VmFsdWVJbkJhc2U2NA=="}},
+              {"ForAnyValue:BinaryEquals": {"k": "AAEC/w=="}, "DateLessThan": {"aws:CurrentTime": "2030-01-01T00:00:00Z"}},
+              {"DateGreaterThanEquals": {"aws:TokenIssueTime": "2019-07-16T19:15:00+02:00"}, "NumericEquals": {"s3:max-keys": 7}},
+              {"NotIpAddress": {"aws:SourceIp": ["2001:db8::/32", "10.0.0.0/8"]}}, {"BoolIfExists": {"aws:MultiFactorAuthPresent": True}}]
 
 
 def small_pattern(rng, cat):
